@@ -1130,7 +1130,7 @@ def model(run, thorough):
   # built, three actions per raise; LogInv
   if thorough:
     run_model("files-errlog", run, MaxLines=4, MaxStmts=2, MaxCalls=1, MaxFuncs=1, MaxRets=1,
-              MaxComments=2, MaxErrs=1, CheckFrame="FALSE", NAMES=[B, N],
+              MaxComments=1, MaxErrs=1, CheckFrame="FALSE", NAMES=[B, N],
               INVARIANTS=["TypeOK", "DirInvRun", "LogInv"])
   else:
     run_model("files-errlog", run, MaxLines=3, MaxStmts=2, MaxCalls=1, MaxFuncs=1, MaxRets=1,
